@@ -200,6 +200,14 @@ func doCommit(
 
 		n.UpdateHash()
 
+		// The internal leaf is marshaled along with the internal node, so make sure it is
+		// available as a clean leaf may have been evicted from the cache.
+		if n.LeafNode != nil && n.LeafNode.Node == nil {
+			if _, err := cache.derefNodePtr(ctx, n.LeafNode, nil); err != nil {
+				return hash.Hash{}, err
+			}
+		}
+
 		// Store the node.
 		if err := batch.PutNode(ptr); err != nil {
 			return hash.Hash{}, err
